@@ -1,5 +1,142 @@
-import Influx.Model.Tenant
-import Influx.Spec.C30
+/-
+  Props.C30 — Tenant metadata stays unique and internally consistent.
+
+  The model (`Model.Tenant`) is the tenant store of /repo/tenant written out over kv
+  buckets as finite maps, with `DeleteOrg` as repaired by
+  fixes/C30-delete-org-index-key.patch.  All theorems are about arbitrary operation
+  sequences (induction over the sequence; no bound on length, ids or names) and hold
+  for every index-key normalisation `orgKey` (nothing about `strings.TrimSpace` is used
+  except that the statement checker and the model trim the same way).
+-/
+import Influx.Lemmas.TenantSpec
 
 namespace Influx.Props.C30
+open Influx.Tenant Influx.Tenant.KV Influx.Spec.C30
+
+/-- **C30, as the statement checker states it**: on the trace of the model on ANY operation
+    sequence (dumps and lookups anywhere) the checker that is run on the real implementation
+    accepts: names unique, every index entry and every API name lookup agrees with the records,
+    a deleted organization leaves no bucket or membership, system buckets persist. -/
+theorem C30_holdsOn (ops : List Op) : holdsOn (run init ops) = true :=
+  scan_run ops rel_init
+
+/-- The invariant behind it holds in every reachable state. -/
+theorem C30_invariant (ops : List Op) : Inv (exec init ops) :=
+  exec_inv ops init_inv
+
+/-- Organization names are unique — even modulo surrounding white space. -/
+theorem C30_org_names_unique (ops : List Op) (i j : Nat) (n m : String)
+    (hi : get (exec init ops).orgs i = some n) (hj : get (exec init ops).orgs j = some m)
+    (e : orgKey n = orgKey m) : i = j :=
+  (C30_invariant ops).org.unique hi hj e
+
+/-- User names are unique. -/
+theorem C30_user_names_unique (ops : List Op) (i j : Nat) (n : String)
+    (hi : get (exec init ops).users i = some n) (hj : get (exec init ops).users j = some n) : i = j :=
+  (C30_invariant ops).user.unique (key := fun n : String => n) hi hj rfl
+
+/-- Bucket names are unique within an organization. -/
+theorem C30_bucket_names_unique (ops : List Op) (i j : Nat) (a b : BucketRec)
+    (hi : get (exec init ops).bkts i = some a) (hj : get (exec init ops).bkts j = some b)
+    (eo : a.org = b.org) (en : a.name = b.name) : i = j :=
+  (C30_invariant ops).bkt.unique hi hj (by simp [eo, en])
+
+/-- Every name lookup agrees with the record it indexes (organizations; exact characterisation):
+    the lookup of `n` finds `(id, nm)` iff record `id` is named `nm` and `nm` normalises like `n`. -/
+theorem C30_lookup_org (ops : List Op) (n nm : String) (id : Nat) :
+    findOrg (exec init ops) n = .ok (id, nm) ↔
+      get (exec init ops).orgs id = some nm ∧ orgKey nm = orgKey n := by
+  have h := C30_invariant ops
+  generalize exec init ops = s at h ⊢
+  unfold findOrg
+  constructor
+  · intro hf
+    cases hi : get s.orgIdx (orgKey n) with
+    | none => rw [hi] at hf; cases hf
+    | some i =>
+      rw [hi] at hf
+      obtain ⟨r, hr, hk⟩ := h.org.sound _ i hi
+      simp only [hr, Except.ok.injEq, Prod.mk.injEq] at hf
+      obtain ⟨rfl, rfl⟩ := hf
+      exact ⟨hr, hk⟩
+  · rintro ⟨hr, hk⟩
+    have := h.org.complete id nm hr
+    rw [hk] at this
+    simp [this, hr]
+
+/-- Bucket lookups by (organization, name): exact characterisation. -/
+theorem C30_lookup_bucket (ops : List Op) (org : Nat) (n : String) (id : Nat) (b : BucketRec) (ho : org ≠ 0) :
+    findBucket (exec init ops) org n = .ok (id, b) ↔
+      get (exec init ops).bkts id = some b ∧ b.org = org ∧ b.name = n := by
+  have h := C30_invariant ops
+  generalize exec init ops = s at h ⊢
+  unfold findBucket
+  simp only [ho, ↓reduceIte]
+  constructor
+  · intro hf
+    cases hi : get s.bktIdx (org, n) with
+    | none => rw [hi] at hf; cases hf
+    | some i =>
+      rw [hi] at hf
+      obtain ⟨r, hr, hk⟩ := h.bkt.sound _ i hi
+      simp only [hr, Except.ok.injEq, Prod.mk.injEq] at hf hk
+      obtain ⟨rfl, rfl⟩ := hf
+      exact ⟨hr, hk.1, hk.2⟩
+  · rintro ⟨hr, rfl, rfl⟩
+    have := h.bkt.complete id b hr
+    simp [this, hr]
+
+/-- User lookups by name: exact characterisation. -/
+theorem C30_lookup_user (ops : List Op) (n nm : String) (id : Nat) :
+    findUser (exec init ops) n = .ok (id, nm) ↔ get (exec init ops).users id = some nm ∧ nm = n := by
+  have h := C30_invariant ops
+  generalize exec init ops = s at h ⊢
+  unfold findUser
+  constructor
+  · intro hf
+    cases hi : get s.userIdx n with
+    | none => rw [hi] at hf; cases hf
+    | some i =>
+      rw [hi] at hf
+      obtain ⟨r, hr, hk⟩ := h.user.sound _ i hi
+      simp only [hr, Except.ok.injEq, Prod.mk.injEq] at hf hk
+      obtain ⟨rfl, rfl⟩ := hf
+      exact ⟨hr, hk⟩
+  · rintro ⟨hr, rfl⟩
+    have := h.user.complete id nm hr
+    simp [this, hr]
+
+/-- Deleting an organization removes its buckets and memberships: after a successful
+    `DeleteOrganization org` in any reachable state no bucket record has that organization
+    and no user-resource mapping is keyed on it. -/
+theorem C30_cascade (ops : List Op) (org r : Nat) (s' : State)
+    (h : deleteOrganization (exec init ops) org = (s', .ok r)) :
+    (∀ id b, get s'.bkts id = some b → b.org ≠ org) ∧ (∀ u, get s'.urms (org, u) = none) := by
+  have := deleteOrganization_cascade (C30_invariant ops) org h
+  exact ⟨this.1, fun u => this.2 (org, u) rfl⟩
+
+/-- System buckets cannot be deleted or renamed: whatever single operation is applied in a
+    reachable state — other than deleting the bucket's organization — a system bucket record
+    is still there, unchanged. -/
+theorem C30_system (ops : List Op) (op : Op) (id : Nat) (b : BucketRec)
+    (hb : get (exec init ops).bkts id = some b) (hs : b.sys = true) (hop : op ≠ .dO b.org) :
+    get (step (exec init ops) op).1.bkts id = some b := by
+  apply step_system (C30_invariant ops) op hb hs
+  cases op <;> simp [isDeleteOrgOf]
+  rename_i x; intro c; exact hop (by rw [c])
+
+/-- …and the two direct attempts are refused with an error. -/
+theorem C30_system_refused (s : State) (id : Nat) (b : BucketRec) (n : String)
+    (hb : get s.bkts id = some b) (hs : b.sys = true) (hn : b.name ≠ n) (h0 : id ≠ 0) :
+    deleteBucket s id false = (s, .error .inv) ∧ updateBucket s id (some n) = (s, .error .inv) := by
+  simp [deleteBucket, updateBucket, h0, hb, hs, hn]
+
+-- non-vacuity: a reachable state with two organizations, their system buckets and a membership,
+-- in which the hypotheses of the theorems above are met
+example : get (exec init [.cu "u" 0, .co "a " 2001, .co "b" 0]).bkts 1001 = some ⟨1, "_tasks", true⟩ := by decide
+example : get (exec init [.cu "u" 0, .co "a " 2001, .co "b" 0]).orgs 1 = some "a " := by decide
+example : get (exec init [.cu "u" 0, .co "a " 2001, .co "b" 0]).urms (1, 2001) = some ⟨true, true⟩ := by decide
+example : (deleteOrganization (exec init [.cu "u" 0, .co "a " 2001, .co "b" 0]) 1).2.toOption = some 1 := by decide
+example : holdsOn (run init [.cu "u" 0, .co "a " 2001, .dump, .fo "a", .dO 1, .dump]) = true := C30_holdsOn _
+
 end Influx.Props.C30
